@@ -65,6 +65,16 @@ func pairCode(p, c string) int {
 	return ra + 4*rr + 16*dd
 }
 
+var c16Resources = []string{
+	"did:key:z6MkhaXgBZDvotDkL5257faiztiGiC2QtKLGpbnnEGta2doK", "did:key:z6MkhaXgBZDvotDkL5257faiztiGiC2QtKLGpbnnEGta2dok",
+	"did:key:zDnaerDaTF5BXEavCrfRZEk316dpbLsfPDZ3WJ5hRTPFU2169", "did:key:zDnaerx9CtbPJ1q36T5Ln5wYt3MQYeGRG5ehnPAmxcf5mDZpv",
+	"did:key:zQ3shokFTS3brHcDQrn82RUDfCZESWL1ZdCEJwekUDPQiYBme", "did:key:zQ3shtxV1FrJfhqE1dvxYRcCknWNjHc3c5X1y3ZSoPDi2aur2",
+	"did:key:a", "did:key:b", "did:key:", "did:key:z", "did:key:z0OIl", "did:key:*", "did:key:z6Mk*",
+	"did:web:example.com", "did:web:example.com:user", "did:web:Example.com", "did:mailto:example.com:alice", "did:*", "did:", "did",
+	"https://example.com", "https://example.com/", "https://example.com/*", "https://Example.com", "https://example.com/a", "https://example.com/a/",
+	"a://b", "a://b/", "a://", "a:/", "ucan:*", "*", "", "urn:thing:1", "urn:thing:2", "file:///home/alice/", "file:///home/alice/notes",
+}
+
 func randomRealistic(r *rand.Rand) (string, string) {
 	segs := []string{"store", "storefront", "upload", "space", "blob", "add", "remove", "list", "Store", "st", "*", "ucan", "did", "key", "zAlice", "mailto", "web.mail", "alice", "https", "example.com", ""}
 	mk := func(sep string) string {
@@ -166,6 +176,16 @@ func init() {
 				samples = append(samples, map[string]any{"pattern": p, "claimed": c, "code": code})
 			}
 		}
+		// every ordered pair of resource-like strings: decodable and undecodable did:key values (Ed25519, RSA-like, P-256,
+		// secp256k1, bad base58, empty), other DID methods, URLs differing by case, trailing slash, one byte
+		for _, p := range c16Resources {
+			for _, c := range c16Resources {
+				code := pairCode(p, c)
+				rhist[code]++
+				items = append(items, fmt.Sprintf("(%s, %s, %d%%N)", hxs(p), hxs(c), code))
+			}
+		}
+		nrand += len(c16Resources) * len(c16Resources)
 		var sb strings.Builder
 		sb.WriteString("From Ucanto Require Import Base Pattern Check_C16.\n")
 		fmt.Fprintf(&sb, "Definition cases : list (bstr * bstr * N) := %s.\n", coqList(items))
